@@ -239,6 +239,24 @@ def run(tier='quick', seed=0):
             except Exception as e:
                 violations.append({'function': 'syntax.parser.parse_thm', 'clause': 'roundtrip',
                                    'what': 'sequent %r: %s %s' % (printer.print_thm(th), type(e).__name__, str(e)[:80])})
+    # closed terms with a polymorphic constant whose type instance nothing in the printed text determines
+    for src in ["finite ({}::'a set)", "({}::'a set) = {}", "card ({}::'a set) = 0", "(univ::'a set) = univ",
+                "x Mem ({}::nat set)", "finite ({}::nat set)"]:
+        try:
+            t = parser.parse_term(src)
+        except Exception:
+            continue
+        for unicode in (False, True):
+            evals += 1
+            try:
+                s_, back = roundtrip(t, unicode, None)
+                ok_ = (back == t)
+            except Exception as e:
+                s_, ok_ = '%s: %s' % (type(e).__name__, str(e)[:60]), False
+            if not ok_:
+                violations.append({'function': 'syntax.printer.print_term', 'clause': 'roundtrip:undetermined-type-instance',
+                                   'what': 'polymorphic constant without annotation: %s does not print / parse back (%s)' % (
+                                       src, s_), 'term': repr(t), 'unicode': unicode})
     # instantiations and type instantiations
     from kernel.term import Inst
     from kernel.type import TyInst
@@ -278,6 +296,11 @@ def run(tier='quick', seed=0):
     from kernel.term import Term
     from kernel.type import Type
 
+    def ty_only_inst():
+        i_ = Inst()
+        i_.tyinst = TyInst(a=NatType)
+        return i_
+
     def items_for(t, other):
         th_own, th_hyp = Thm(t), Thm(t, P)
         res = []
@@ -296,10 +319,13 @@ def run(tier='quick', seed=0):
                     ProofItem(1, 'subst_type', args=TyInst(a=NatType), prevs=[0], th=th),
                     ProofItem(1, 'substitution', args=Inst(s=t, u=other), prevs=[0], th=th),
                     ProofItem(0, 'variable', args=('x', NatType), th=th),
+                    ProofItem(5, 'apply_theorem_for', args=('finite_empty', ty_only_inst()), prevs=[], th=th),
                     ProofItem(9, 'sorry', th=th_hyp)]
         return res
 
     def same_args(a1, a2):
+        if isinstance(a1, Inst) and isinstance(a2, Inst) and dict(a1.tyinst) != dict(a2.tyinst):
+            return False
         if isinstance(a1, (Inst, TyInst)) and isinstance(a2, (Inst, TyInst)):
             return dict(a1) == dict(a2)
         if isinstance(a1, (tuple, list)) and isinstance(a2, (tuple, list)):
@@ -324,7 +350,10 @@ def run(tier='quick', seed=0):
                         if not same_args(back.args, item.args):
                             diff.append('args')
                         if diff:
-                            violations.append({'function': 'syntax.printer.export_proof_item', 'clause': 'roundtrip',
+                            only_ty = diff == ['args'] and isinstance(item.args, tuple) and any(
+                                isinstance(a_, Inst) and len(a_.tyinst) > 0 for a_ in item.args)
+                            violations.append({'function': 'syntax.printer.export_proof_item',
+                                               'clause': 'roundtrip:type-instantiation-of-inst' if only_ty else 'roundtrip',
                                                'what': 'step %s: fields %s differ after export / parse (args exported as %r)' % (
                                                    item.rule, diff, data['args']), 'unicode': unicode, 'highlight': hl})
                     except Exception as e:
